@@ -1,3 +1,4 @@
+import Ntrip.Guards.Apps
 import Ntrip.Properties.C09
 import Ntrip.Properties.C02
 import Ntrip.Properties.C07
@@ -125,5 +126,13 @@ theorem tie_skeletons :
 /-! Non-vacuity (tests). -/
 example : sanitise "<script>alert(1)</script>".toList = "&lt;script&gt;alert(1)&lt;/script&gt;".toList := by decide
 example : clientLoop [[1, 2], [3]] = ([1, 2, 3], [1, 2, 3]) := by decide
+
+/-- Tie T1: what the client loop hands over — each byte of the chunk, by value and from the loop
+    itself (no feeder goroutine), to the parser; the chunk itself upstream. -/
+theorem tie_handover :
+    Gen.sent_proxy_handleClientMessages = some ["byteChan <- data[i]", "server.Write(data[:n])"] := by decide
+
+/-- Tie T1 (guards): the relay loops, the queue updater and `Status`. -/
+theorem tie_guards_proxy : type_of% Ntrip.Guards.proxy := Ntrip.Guards.proxy
 
 end Ntrip.C19
